@@ -26,6 +26,13 @@ theorem gen_clientWriteHeaders_src : Gen.C14.clientWriteHeadersSrc =
     "func (cc *ClientConn) writeHeaders(streamID uint32, endStream bool, maxFrameSize int, hdrs []byte) error { first := true for len(hdrs) > 0 && cc.werr == nil { chunk := hdrs if len(chunk) > maxFrameSize { chunk = chunk[:maxFrameSize] } hdrs = hdrs[len(chunk):] endHeaders := len(hdrs) == 0 if first { cc.fr.WriteHeaders(HeadersFrameParam{ StreamID: streamID, BlockFragment: chunk, EndStream: endStream, EndHeaders: endHeaders, }) first = false } else { cc.fr.WriteContinuation(streamID, endHeaders, chunk) } } cc.bw.Flush() return cc.werr }" := by
   rfl
 
+/-- `clientStream.encodeAndWriteHeaders`: END_STREAM on the request HEADERS iff the request has no
+body (`endStream := !res.HasBody`, `Req.earlyEnd`) — announced trailers of a body-less request
+are not sent. -/
+theorem gen_encodeAndWriteHeaders_src : Gen.C14.encodeAndWriteHeadersSrc =
+    "func (cs *clientStream) encodeAndWriteHeaders(req *http.Request) error { cc := cs.cc ctx := cs.ctx cc.wmu.Lock() defer cc.wmu.Unlock() select { case <-cs.abort: return cs.abortErr case <-ctx.Done(): return ctx.Err() case <-cs.reqCancel: return errRequestCanceled default: } cc.hbuf.Reset() res, err := encodeRequestHeaders(req, cs.requestedGzip, cc.peerMaxHeaderListSize, func(name, value string) { cc.writeHeader(name, value) }) if err != nil { return fmt.Errorf(\"http2: %w\", err) } hdrs := cc.hbuf.Bytes() endStream := !res.HasBody cs.sentHeaders = true err = cc.writeHeaders(cs.ID, endStream, int(cc.maxFrameSize), hdrs) traceWroteHeaders(cs.trace) return err }" := by
+  rfl
+
 theorem gen_bodyAllowedForStatus_src : Gen.C14.bodyAllowedForStatusSrc =
     "func bodyAllowedForStatus(status int) bool { switch { case status >= 100 && status <= 199: return false case status == 204: return false case status == 304: return false } return true }" := by
   rfl
